@@ -589,12 +589,27 @@ def _replace_root(p, name, base):
 def _prune_dc3(f, cond):
     """The TR 101 231 special case `0x0DC3 == cni_value` (documented
     exception): its TRUE edge is left out of the comparison."""
-    j = ex.skip(f, cond)
-    for n in ex.walk(f, j):
+    def find(n, neg, depth=0):
+        n = ex.skip(f, n)
         e = f.exprs[n]
-        if e["k"] == "bin" and e["op"] == "==" and (ex.const(f, e["c"][0]) == 0x0DC3 or ex.const(f, e["c"][1]) == 0x0DC3):
-            return "T"
-    return None
+        if depth > 12:
+            return None
+        if e["k"] == "bin" and e["op"] in ("==", "!=") and (ex.const(f, e["c"][0]) == 0x0DC3 or ex.const(f, e["c"][1]) == 0x0DC3):
+            special_when_true = (e["op"] == "==") != neg
+            return "T" if special_when_true else "F"
+        if e["k"] == "un" and e["op"] == "!":
+            return find(e["c"][0], not neg, depth + 1)
+        if e["k"] == "bin" and e["op"] in ("==", "!=") and (ex.const(f, e["c"][0]) == 0 or ex.const(f, e["c"][1]) == 0):
+            # `(x == 0xDC3) != 0`, what __builtin_expect (!!(c), 1) leaves behind
+            other = e["c"][1] if ex.const(f, e["c"][0]) == 0 else e["c"][0]
+            return find(other, neg != (e["op"] == "=="), depth + 1)
+        if e["k"] in ("cast", "paren") and e.get("c"):
+            return find(e["c"][0], neg, depth + 1)
+        if e["k"] == "call" and e.get("callee") == "__builtin_expect" and e.get("c"):
+            args = [c for c in e["c"] if c is not None and c >= 0]
+            return find(args[-2] if len(args) >= 2 else args[0], neg, depth + 1)
+        return None
+    return find(cond, False)
 
 
 def _fmt(b):
